@@ -408,6 +408,16 @@ func (w *pedWorld) mutateResp(p *party, b *pdkg.ResponseBundle) []pdkg.Packet {
 				hs = append(hs, q)
 			}
 		}
+		// leaving dealers are the interesting targets in a resharing: prefer them
+		var leaving []*party
+		for _, q := range hs {
+			if !q.inNew() {
+				leaving = append(leaving, q)
+			}
+		}
+		if len(leaving) > 0 && t.Bool("byz.pick", 700) {
+			hs = leaving
+		}
 		if len(hs) > 0 {
 			q := hs[t.Intn("byz.pick", len(hs))]
 			found := false
